@@ -155,6 +155,7 @@ func runCase(c protox.Case) (res protox.Result) {
 	w.Net.QuiesceTimeout = 20 * time.Second
 	w.EnableRelay(nil)
 	w.DialRaw = map[string]bool{"origin": true}
+	w.RelaxedRelay = true
 	defer w.Close()
 	if bytes.Contains(in, []byte("$W")) {
 		in = bytes.ReplaceAll(in, []byte("$W"), []byte(fmt.Sprintf("w%d", w.ID)))
